@@ -93,14 +93,13 @@ def judge(ctx, res, tpath, what):
 
 
 def run(ctx):
-    if not os.environ.get("VERIF_DEV_SKIPMC"):
-        ctx.mc("MemBufMC", ctx.pick("MemBufMC.cfg", "MemBufMCT.cfg"), workers=ctx.pick(4, 8))
-        ctx.neg("MemBufMC", "MemBufNeg1.cfg", expect="I_LiveIntact", workers=2)
-        ctx.neg("MemBufMC", "MemBufNeg2.cfg", expect="I_PutExactlyAtLastFree", workers=2)
-        ctx.neg("MemBufMC", "MemBufNeg3.cfg", expect="I_PutOnce", workers=2)
+    ctx.mc("MemBufMC", ctx.pick("MemBufMC.cfg", "MemBufMCT.cfg"), workers=ctx.pick(4, 8), timeout=ctx.pick(900, 3000))
+    ctx.neg("MemBufMC", "MemBufNeg1.cfg", expect="I_LiveIntact", workers=2)
+    ctx.neg("MemBufMC", "MemBufNeg2.cfg", expect="I_PutExactlyAtLastFree", workers=2)
+    ctx.neg("MemBufMC", "MemBufNeg3.cfg", expect="I_PutOnce", workers=2)
     binary = ctx.go_build("internal/zzverif/c53")
     g = ctx.dump_graph("MemBufMC", "MemBufGen.cfg")
-    behs = ctx.edge_cover(g, step_of, limit=ctx.pick(1500, 20000))
+    behs = ctx.edge_cover(g, step_of, limit=ctx.pick(1500, 12000))
     bpath = os.path.join(ctx.run, "beh.ndjson")
     tpath = os.path.join(ctx.run, "trace-replay.ndjson")
     write_ndjson(bpath, behs)
@@ -110,12 +109,12 @@ def run(ctx):
     ctx.sample(behs[len(behs) // 2])
     judge(ctx, ctx.validate("MemBufTrace", "MemBufTrace.cfg", tpath), tpath, "replay of TLC behaviours")
     tpath2 = os.path.join(ctx.run, "trace-random.ndjson")
-    n = ctx.pick(200, 4000)
+    n = ctx.pick(200, 2500)
     ctx.driver(binary, "TestVerifC53Random", {"VERIF_OUT": tpath2, "VERIF_N": n})
     ctx.count({"random_runs": n, "seed": ctx.seed}, n=n)
     judge(ctx, ctx.validate("MemBufTrace", "MemBufTrace.cfg", tpath2), tpath2, "random operation sequences seed %d" % ctx.seed)
     tpath3 = os.path.join(ctx.run, "trace-pool.ndjson")
-    n3 = ctx.pick(80, 1500)
+    n3 = ctx.pick(80, 800)
     ctx.driver(binary, "TestVerifC53Pool", {"VERIF_OUT": tpath3, "VERIF_N": n3})
     ctx.count({"pool_runs": n3, "seed": ctx.seed}, n=n3)
     judge(ctx, ctx.validate("MemBufTrace", "MemBufTrace.cfg", tpath3), tpath3, "real pools Get/Put seed %d" % ctx.seed)
